@@ -1,0 +1,6 @@
+//go:build !verif
+
+package anytype
+
+// Verification yield point, empty unless built with the verif tag.
+func verifPoint(site string) {}
